@@ -423,6 +423,7 @@ def wake_bounded(F, R):
     for ver in ('v3', 'v5'):
         rep = runner.Report('C13', 'quick')
         c13.wake_count(F, rep, ver)
+        c13.wakes_only_where_the_window_opens(F, rep, ver)
         bad = [i for i in rep.items if not i['ok']]
         R.ob('C05.gated', '%s|released-senders<=free-slots (C13.wake-count)' % ver, not bad,
              'more parked senders can be released than there are free slots in the send window: %s' % '; '.join(i['key'] for i in bad)[:300])
